@@ -1400,10 +1400,13 @@ def getitem(E, obj, idx):
         if isinstance(idx, int) and idx == 0:
             return _aio.sq_peek(E, obj.q)
         raise Unsupported('queue view index %r' % (idx,))
+    if isinstance(obj, (ENG.PyFunc, ENG.BoundMethod, ENG.Builtin, int, bool, SInt, SBool)):
+        E.throw('TypeError', "'%s' object is not subscriptable" % type(obj).__name__)
     raise Unsupported('subscript of %r' % (obj,))
 
 
 def setitem(E, obj, idx, v):
+    E.note_mutation(obj)
     if isinstance(obj, SByteArray):
         cur = obj.val
         n = cur.n
@@ -1462,6 +1465,7 @@ def setitem(E, obj, idx, v):
 
 
 def delitem(E, obj, idx):
+    E.note_mutation(obj)
     if isinstance(obj, dict):
         k = dict_key(E, idx)
         if k not in obj:
@@ -1546,6 +1550,8 @@ def concrete_iter(E, v):
             return list(v.attrs['items'])
     if v is None:
         E.throw('TypeError', "'NoneType' object is not iterable")
+    if isinstance(v, (ENG.PyFunc, ENG.BoundMethod, ENG.Builtin, int, bool, SInt, SBool)):
+        E.throw('TypeError', "'%s' object is not iterable" % type(v).__name__)
     raise Unsupported('iteration over %r' % (v,))
 
 
@@ -1673,6 +1679,8 @@ def str_attr(E, v, name):
 
 
 def list_attr(E, v, name):
+    if name in ('append', 'extend', 'pop', 'insert', 'remove', 'clear', 'sort', 'reverse'):
+        E.note_mutation(v)
     if name == 'append':
         return Builtin('list.append', lambda x: v.append(x))
     if name == 'extend':
@@ -1711,6 +1719,8 @@ def list_attr(E, v, name):
 
 
 def dict_attr(E, v, name):
+    if name in ('update', 'setdefault', 'pop', 'popitem', 'clear'):
+        E.note_mutation(v)
     if name == 'get':
         def get(k, default=None):
             if isinstance(k, (SBytes, SByteArray)) and lift_bytes(k).conc is None:
